@@ -285,6 +285,13 @@ Trigger(u) ==
      st \in Steps1, sc \in StepSeqsS, oc \in {0, 1}, ip \in BOOLEAN, ch \in ChainsUpTo1(Atoms), two \in BOOLEAN,
      ord3 \in Perms3, ord4 \in {<<1, 2, 3, 4>>, <<4, 3, 2, 1>>}}
 
+(* a consumer that needs more than a finishing producer will ever publish: the run must stop with an  *)
+(* error before the consumer is advanced (C01), it can not complete                                   *)
+FinDep(u) ==
+  {MkCfg(<<TimeC(sa, 0, FALSE, <<>>) @@ [fin |-> k], TimeC(sb, ob, FALSE, <<Lk(1, ch)>>)>>, ord, 7, "findep", "findep") :
+     sa \in {<<1>>, <<2>>}, k \in 1..2, sb \in {<<1>>, <<2>>, <<3>>}, ob \in {0, 1}, ch \in ChainsUpTo1({Pass, Fix(1), Buf("linear"), Buf("next")}),
+     ord \in Perms2}
+
 (* growth beyond the listed properties: push-based consumers (CallbackInput) next to a       *)
 (* time-stepped reader of the same output, directly and behind adapters                      *)
 SinkFan(u) ==
@@ -360,6 +367,7 @@ CfgSpace(f) ==
     [] f = "repeatinteg" -> RepeatInteg(0)
     [] f = "sinkfan"    -> SinkFan(0)
     [] f = "finisher"   -> Finisher(0)
+    [] f = "findep"     -> FinDep(0)
     [] f = "trigger"    -> Trigger(0)
     [] f = "staticin"   -> StaticIn(0)
     [] f = "lateidle"   -> LateIdle(0)
@@ -368,6 +376,6 @@ CfgSpace(f) ==
 
 AllFamilies == {"pair", "pairL", "pairXL", "pair3", "chain3t", "chain3p", "fanin2", "fanin1",
                 "fanout", "pullfanout", "diamondt", "diamondp", "pullchain2", "ring2", "ring3",
-                "ring4", "pullring", "pullringtail", "ringbreak", "wsum", "pulltwice", "ring2tail", "fanoutshared", "repeatinteg", "sinkfan", "lateidle", "ringfanin", "fanout3shared", "chain3d", "wsumback", "finisher", "trigger", "staticin", "ringavg", "fanoutsum"}
+                "ring4", "pullring", "pullringtail", "ringbreak", "wsum", "pulltwice", "ring2tail", "fanoutshared", "repeatinteg", "sinkfan", "lateidle", "ringfanin", "fanout3shared", "chain3d", "wsumback", "finisher", "trigger", "staticin", "ringavg", "fanoutsum", "findep"}
 
 =============================================================================
